@@ -58,7 +58,19 @@ func main() {
 	}
 	defer w.Close()
 	rng := rand.New(rand.NewSource(seed))
+	type variant struct {
+		n    int
+		kind string // dense | gaps (some shards have no reported leader) | shuffled (the list is not in shard order) | gapshuffled
+	}
+	var variants []variant
 	for _, n := range []int{1, 2, 3, 5, 8, 16, 64} {
+		variants = append(variants, variant{n, "dense"})
+		if n > 1 {
+			variants = append(variants, variant{n, "gaps"}, variant{n, "shuffled"}, variant{n, "gapshuffled"})
+		}
+	}
+	for _, va := range variants {
+		n := va.n
 		var mu sync.Mutex
 		hit := -1
 		stubs := make([]*httptest.Server, n)
@@ -82,9 +94,18 @@ func main() {
 				}
 			}))
 		}
+		// which shards have a reported leader, and in which order the list names them (stub k is always the leader of shard k)
+		reported := map[int]bool{}
 		mu.Lock()
 		for k := 0; k < n; k++ {
+			if (va.kind == "gaps" || va.kind == "gapshuffled") && rng.Intn(3) == 0 && k != n-1 {
+				continue // (the last shard is always reported: the harness waits for it below)
+			}
+			reported[k] = true
 			info.Endpoints = append(info.Endpoints, proxyv1alpha1.EndpointInfo{Leader: stubs[k].URL, ShardID: int32(k)})
+		}
+		if va.kind == "shuffled" || va.kind == "gapshuffled" {
+			rng.Shuffle(len(info.Endpoints), func(a, b int) { info.Endpoints[a], info.Endpoints[b] = info.Endpoints[b], info.Endpoints[a] })
 		}
 		mu.Unlock()
 		ctx, cancel := context.WithCancel(context.Background())
@@ -92,9 +113,9 @@ func main() {
 		deadline := time.Now().Add(10 * time.Second)
 		for {
 			if _, err := cs.ShardIDFor("x"); err == nil {
-				if _, err := cs.ClientFor("x"); err == nil {
-					break
-				}
+				// synced: the shard count is known (the leaders are stored in the same pass)
+				time.Sleep(30 * time.Millisecond)
+				break
 			}
 			if time.Now().After(deadline) {
 				vio.Die("gateway client set never synced for N=%d", n)
@@ -120,7 +141,11 @@ func main() {
 			g, e1 := probe(name)
 			g2, _ := probe(name)
 			sid, _ := cs.ShardIDFor(name)
-			w.Write(map[string]interface{}{"n": n, "name": base64.StdEncoding.EncodeToString([]byte(name)), "server": rlutil.GetShardID(name, n),
+			want := rlutil.GetShardID(name, n)
+			if !reported[want] {
+				want = -1 // no leader reported for the name's shard: the gateway must say so, not address somebody else
+			}
+			w.Write(map[string]interface{}{"n": n, "kind": va.kind, "name": base64.StdEncoding.EncodeToString([]byte(name)), "server": rlutil.GetShardID(name, n), "want": want,
 				"gateway": g, "again": g2, "shardidfor": sid, "err": e1})
 		}
 		cancel()
